@@ -85,6 +85,7 @@ type Exec struct {
 	enqueue      func(prefix []Dec, model map[string]uint64)
 	nvars        int
 	steps        int64
+	envFixed     bool // verifEnvFixed: environment stubs return one fixed legal value
 	depth        int
 	epoch        int
 	inputs       []*Term
